@@ -38,6 +38,8 @@ package util
 // sections(lo, hi, done): the sections below `done` are filtered, the others untouched; the list itself is unchanged
 //@ pred sectionsOK(d *sdp.SessionDescription, done int) = len(d.MediaDescriptions) == len(atloop(1, d.MediaDescriptions)) && (forall p int :: 0 <= p && p < len(d.MediaDescriptions) ==> d.MediaDescriptions[p] == atloop(1, d.MediaDescriptions[p]) && d.MediaDescriptions[p] != nil) && (forall p int, q int :: 0 <= p && p < q && q < len(d.MediaDescriptions) ==> d.MediaDescriptions[p] != d.MediaDescriptions[q]) && (forall p int :: 0 <= p && p < done && p < len(d.MediaDescriptions) ==> filteredUpTo(d.MediaDescriptions[p].Attributes, d.MediaDescriptions[p], len(atloop(1, d.MediaDescriptions[p].Attributes)))) && (forall p int :: done <= p && p < len(d.MediaDescriptions) ==> unchangedAttrs(d.MediaDescriptions[p]))
 //
+//@ ghost var sdpParsed bool
+//@ ghost var sdpMarshalled bool
 //@ func StripLocalAddresses(str string) (r string)
 //@   props C08
 //@   model int
@@ -47,6 +49,14 @@ package util
 //@   loop 2 invariant {filter-prefix} rangeindex#2 + 1 <= len(m.Attributes) && filteredUpTo(attrs, m, rangeindex#2 + 1)
 //@   loop 2 invariant {own-array} forall p int :: 0 <= p && p < len(desc.MediaDescriptions) ==> base(desc.MediaDescriptions[p].Attributes) != base(attrs)
 //@   at call Marshal assert {every-section-filtered} sectionsOK(&desc, len(desc.MediaDescriptions))
+//   What is RETURNED is the re-marshalled filtered description whenever the text parses (the unfiltered input only when
+//   parsing or marshalling fails): there is no path around the filter.
+//@   at entry ghost sdpParsed = false
+//@   at entry ghost sdpMarshalled = false
+//@   after call Unmarshal ghost sdpParsed = ret0 == nil
+//@   after call Marshal ghost sdpMarshalled = ret1 == nil
+//@   ensures {no-path-around-the-filter} sdpParsed ==> calls(Marshal) == 1
+//@   ensures {returns-the-filtered-description} sdpParsed && sdpMarshalled ==> r == string(bts)
 //
 // Untrusted session descriptions (C13): for ANY string received from the other side the function returns a value or
 // an error; the safety sweep (type assertions, map/index accesses, nil dereferences) is on, and encoding/json may put
